@@ -207,6 +207,10 @@ func main() {
 			rw := &rewriter{pkg: p, file: f, fset: p.Fset, info: p.TypesInfo, rel: rel, stats: stats}
 			rw.sched = schedPkgs[p.PkgPath]
 			rw.os = matchOSFile(rel)
+			if rw.sched && p.PkgPath != modPath {
+				rw.fieldProbes = true
+				rw.params, rw.stores = pkgParams(p)
+			}
 			if !rw.sched && !rw.os {
 				if src, ok := replaced[name]; ok {
 					ov.Replace[name] = src
@@ -268,22 +272,25 @@ func fatal(f string, a ...any) {
 }
 
 type rewriter struct {
-	pkg       *packages.Package
-	file      *ast.File
-	fset      *token.FileSet
-	info      *types.Info
-	rel       string
-	sched     bool
-	os        bool
-	changed   bool
-	useRT     bool
-	useOS     bool
-	stats     map[string]int
-	inComm    map[ast.Node]bool
-	yieldIn   map[*ast.BlockStmt]bool // blocks (and nested) to receive stmt-level yields
-	yieldCase map[*ast.CaseClause]bool
-	quietLoop map[ast.Node]bool // blocks and case clauses inside loops of the "noloops" files
-	funcOf    map[ast.Node]string // enclosing function of blocks and case clauses
+	pkg         *packages.Package
+	file        *ast.File
+	fset        *token.FileSet
+	info        *types.Info
+	rel         string
+	sched       bool
+	os          bool
+	changed     bool
+	useRT       bool
+	useOS       bool
+	stats       map[string]int
+	inComm      map[ast.Node]bool
+	yieldIn     map[*ast.BlockStmt]bool // blocks (and nested) to receive stmt-level yields
+	yieldCase   map[*ast.CaseClause]bool
+	quietLoop   map[ast.Node]bool   // blocks and case clauses inside loops of the "noloops" files
+	funcOf      map[ast.Node]string // enclosing function of blocks and case clauses
+	fieldProbes bool                // rule R10 applies to this package
+	params      map[*types.Var]bool // parameters and receivers of the file's functions (rule R10)
+	stores      map[string]bool     // rule R10: fields stored to somewhere in the package
 }
 
 func (rw *rewriter) site(n ast.Node) ast.Expr {
@@ -764,6 +771,14 @@ func (rw *rewriter) isSlice(e ast.Expr) bool {
 	return ok
 }
 
+// fieldProbe is varProbe for a selector made by the instrumenter (which has
+// no type information): the site is named from the type.
+func (rw *rewriter) fieldProbe(name string, n *types.Named, sel *ast.SelectorExpr, at ast.Node, fn string) ast.Stmt {
+	pos := rw.fset.Position(at.Pos())
+	site := fmt.Sprintf("%s:%s:%s.%s", filepath.Base(pos.Filename), fn, n.Obj().Name(), sel.Sel.Name)
+	return &ast.ExprStmt{X: call(rw.rt(name), &ast.UnaryExpr{Op: token.AND, X: sel}, &ast.BasicLit{Kind: token.STRING, Value: strconv.Quote(site)})}
+}
+
 func (rw *rewriter) varProbe(name string, x ast.Expr, at ast.Node, fn string) ast.Stmt {
 	pos := rw.fset.Position(at.Pos())
 	site := fmt.Sprintf("%s:%s:%s", filepath.Base(pos.Filename), fn, rw.mapName(x))
@@ -1052,6 +1067,226 @@ func (rw *rewriter) mapReads(stmt ast.Stmt, hdr []ast.Node, skip map[ast.Expr]bo
 	return out
 }
 
+// ---- rule R10: field probes on shared code objects ----
+//
+// A compiled form (a struct that embeds slip.Function) is one object per place
+// in the code and is shared by every routine that evaluates that code; the
+// generic function objects of pkg/generic (Aux, genfun, ...) are shared by
+// every caller. A store to a field of such an object from inside a method or
+// through a pointer parameter is a write that other routines can meet. The
+// probe is the same write window as for maps: VarW(&x.f) before the store,
+// VarR(&x.f) before a statement that reads a field that is stored to
+// somewhere in the package.
+
+type pkgFieldInfo struct {
+	params map[*types.Var]bool
+	stores map[string]bool
+}
+
+var pkgFieldCache = map[*packages.Package]*pkgFieldInfo{}
+
+// pkgParams returns the parameters and receivers of every function of the
+// package, and the (initially unset) store table shared by its files.
+func pkgParams(p *packages.Package) (map[*types.Var]bool, map[string]bool) {
+	if c := pkgFieldCache[p]; c != nil {
+		return c.params, c.stores
+	}
+	c := &pkgFieldInfo{params: map[*types.Var]bool{}}
+	add := func(fl *ast.FieldList) {
+		if fl == nil {
+			return
+		}
+		for _, f := range fl.List {
+			for _, name := range f.Names {
+				if v, ok := p.TypesInfo.Defs[name].(*types.Var); ok {
+					c.params[v] = true
+				}
+			}
+		}
+	}
+	for _, f := range p.Syntax {
+		ast.Inspect(f, func(x ast.Node) bool {
+			switch tx := x.(type) {
+			case *ast.FuncDecl:
+				add(tx.Recv)
+				add(tx.Type.Params)
+			case *ast.FuncLit:
+				add(tx.Type.Params)
+			}
+			return true
+		})
+	}
+	pkgFieldCache[p] = c
+	// the store table needs a rewriter's helpers; it is filled on first use
+	rw := &rewriter{pkg: p, fset: p.Fset, info: p.TypesInfo, params: c.params, stats: map[string]int{}}
+	c.stores = rw.fieldStores()
+	return c.params, c.stores
+}
+
+// codeObjectType reports whether t (or what it points to) is a named struct
+// that embeds slip.Function, or a named struct declared in pkg/generic.
+func (rw *rewriter) codeObjectType(t types.Type) (*types.Named, bool) {
+	if t == nil {
+		return nil, false
+	}
+	if p, ok := t.(*types.Pointer); ok {
+		t = p.Elem()
+	}
+	n, ok := types.Unalias(t).(*types.Named)
+	if !ok {
+		return nil, false
+	}
+	st, ok := n.Underlying().(*types.Struct)
+	if !ok {
+		return nil, false
+	}
+	if n.Obj().Pkg() != nil && strings.HasSuffix(n.Obj().Pkg().Path(), "/pkg/generic") {
+		return n, true
+	}
+	for i := 0; i < st.NumFields(); i++ {
+		f := st.Field(i)
+		if f.Embedded() {
+			if fn, ok := types.Unalias(f.Type()).(*types.Named); ok && fn.Obj().Name() == "Function" && fn.Obj().Pkg() != nil && fn.Obj().Pkg().Path() == modPath {
+				return n, true
+			}
+		}
+	}
+	return nil, false
+}
+
+// paramOrReceiver reports whether id names a parameter or the receiver of the
+// enclosing function (an object that came from outside, not one made here).
+func (rw *rewriter) paramOrReceiver(id *ast.Ident) bool {
+	v, ok := rw.info.Uses[id].(*types.Var)
+	if !ok || v.IsField() {
+		return false
+	}
+	return rw.params[v]
+}
+
+// fieldOf returns the named struct type and field of the selector x.f when x
+// is a parameter or receiver holding a code object and f one of its own
+// fields (not a promoted one).
+func (rw *rewriter) fieldOf(e ast.Expr) (*types.Named, *ast.SelectorExpr, bool) {
+	sel, ok := ast.Unparen(e).(*ast.SelectorExpr)
+	if !ok {
+		return nil, nil, false
+	}
+	id, ok := ast.Unparen(sel.X).(*ast.Ident)
+	if !ok || !rw.paramOrReceiver(id) {
+		return nil, nil, false
+	}
+	sl := rw.info.Selections[sel]
+	if sl == nil || sl.Kind() != types.FieldVal || len(sl.Index()) != 1 {
+		return nil, nil, false
+	}
+	n, ok := rw.codeObjectType(rw.info.TypeOf(id))
+	if !ok {
+		return nil, nil, false
+	}
+	switch sl.Obj().Type().Underlying().(type) {
+	case *types.Map, *types.Slice:
+		return nil, nil, false // rule R8's business
+	}
+	if named, ok := types.Unalias(sl.Obj().Type()).(*types.Named); ok && named.Obj().Pkg() != nil &&
+		(named.Obj().Pkg().Path() == "sync" || named.Obj().Pkg().Path() == "sync/atomic") {
+		return nil, nil, false
+	}
+	return n, sel, true
+}
+
+// fieldStores collects "Type.field" for every store of the package that
+// fieldOf accepts, and "Type.*" for stores through a pointer parameter.
+func (rw *rewriter) fieldStores() map[string]bool {
+	if rw.stores != nil {
+		return rw.stores
+	}
+	rw.stores = map[string]bool{}
+	for _, f := range rw.pkg.Syntax {
+		ast.Inspect(f, func(x ast.Node) bool {
+			switch tx := x.(type) {
+			case *ast.AssignStmt:
+				for _, l := range tx.Lhs {
+					if n, sel, ok := rw.fieldOf(l); ok {
+						rw.stores[n.Obj().Name()+"."+sel.Sel.Name] = true
+					}
+					if n, _, ok := rw.derefStore(l); ok {
+						rw.stores[n.Obj().Name()+".*"] = true
+					}
+				}
+			case *ast.IncDecStmt:
+				if n, sel, ok := rw.fieldOf(tx.X); ok {
+					rw.stores[n.Obj().Name()+"."+sel.Sel.Name] = true
+				}
+			}
+			return true
+		})
+	}
+	return rw.stores
+}
+
+// derefStore: *p = v where p is a pointer parameter to a code object.
+func (rw *rewriter) derefStore(e ast.Expr) (*types.Named, *ast.Ident, bool) {
+	st, ok := ast.Unparen(e).(*ast.StarExpr)
+	if !ok {
+		return nil, nil, false
+	}
+	id, ok := ast.Unparen(st.X).(*ast.Ident)
+	if !ok || !rw.paramOrReceiver(id) {
+		return nil, nil, false
+	}
+	n, ok := rw.codeObjectType(rw.info.TypeOf(id))
+	return n, id, ok
+}
+
+// fieldReads returns the x.f operands read by the header expressions of stmt
+// (no call in the header, not conditional) whose field is stored to somewhere.
+func (rw *rewriter) fieldReads(hdr []ast.Node, skip map[ast.Expr]bool) (out []*ast.SelectorExpr) {
+	stores := rw.fieldStores()
+	if len(stores) == 0 {
+		return nil
+	}
+	seen := map[string]bool{}
+	var visit func(x ast.Node, walk func(ast.Node)) bool
+	for _, h := range hdr {
+		if h == nil || reflect.ValueOf(h).IsNil() || rw.hasRealCall(h) {
+			continue
+		}
+		var walk func(n ast.Node)
+		walk = func(n ast.Node) {
+			ast.Inspect(n, func(x ast.Node) bool {
+				return visit(x, walk)
+			})
+		}
+		visit = func(x ast.Node, walk func(ast.Node)) bool {
+			switch tx := x.(type) {
+			case *ast.FuncLit:
+				return false
+			case *ast.BinaryExpr:
+				if tx.Op == token.LAND || tx.Op == token.LOR {
+					walk(tx.X) // the left operand is always evaluated
+					return false
+				}
+			case *ast.SelectorExpr:
+				if skip[tx] {
+					return false
+				}
+				if n, sel, ok := rw.fieldOf(tx); ok && (stores[n.Obj().Name()+"."+sel.Sel.Name] || stores[n.Obj().Name()+".*"]) {
+					var b bytes.Buffer
+					_ = format.Node(&b, rw.fset, sel)
+					if !seen[b.String()] {
+						seen[b.String()] = true
+						out = append(out, sel)
+					}
+				}
+			}
+			return true
+		}
+		walk(h)
+	}
+	return
+}
+
 // mapName names the map of a probe independently of line numbers and of the
 // name of the variable that holds its owner: "<type of the owner>.<field>"
 // for a field, the variable name for a package-level map.
@@ -1114,6 +1349,21 @@ func (rw *rewriter) withMapProbes(list []ast.Stmt, quiet bool, fn string) []ast.
 		var hdr []ast.Node
 		switch ts := s.(type) {
 		case *ast.AssignStmt:
+			if rw.fieldProbes && len(ts.Lhs) == 1 && len(ts.Rhs) == 1 && ts.Tok != token.DEFINE && !rw.hasRealCall(ts.Rhs[0]) {
+				if _, sel, ok := rw.fieldOf(ts.Lhs[0]); ok {
+					skip[sel] = true
+					out = append(out, rw.varProbe("VarW", sel, s, fn))
+					rw.stats["fieldw"]++
+				} else if n, id, ok := rw.derefStore(ts.Lhs[0]); ok {
+					if st, isSt := n.Underlying().(*types.Struct); isSt && st.NumFields() <= 8 {
+						for i := 0; i < st.NumFields(); i++ {
+							fsel := &ast.SelectorExpr{X: ast.NewIdent(id.Name), Sel: ast.NewIdent(st.Field(i).Name())}
+							out = append(out, rw.fieldProbe("VarW", n, fsel, s, fn))
+							rw.stats["fieldw"]++
+						}
+					}
+				}
+			}
 			if len(ts.Lhs) == 1 && ts.Tok == token.ASSIGN && rw.sharedSliceExpr(ts.Lhs[0], s) && !rw.hasRealCall(ts.Rhs[0]) {
 				vw := "VarW"
 				if quiet {
@@ -1145,6 +1395,13 @@ func (rw *rewriter) withMapProbes(list []ast.Stmt, quiet bool, fn string) []ast.
 			}
 			hdr = append(hdr, ts)
 		case *ast.IncDecStmt:
+			if rw.fieldProbes {
+				if _, sel, ok := rw.fieldOf(ts.X); ok {
+					skip[sel] = true
+					out = append(out, rw.varProbe("VarW", sel, s, fn))
+					rw.stats["fieldw"]++
+				}
+			}
 			if ix, ok := ast.Unparen(ts.X).(*ast.IndexExpr); ok && rw.isMap(ix.X) && rw.sharedMapExpr(ix.X, s) && !rw.hasRealCall(ix.Index) {
 				skip[ix] = true
 				out = append(out, rw.probe(wname, ix.X, s, fn))
@@ -1200,6 +1457,12 @@ func (rw *rewriter) withMapProbes(list []ast.Stmt, quiet bool, fn string) []ast.
 		}
 		for _, id := range rw.sliceReads(s, hdr) {
 			out = append(out, rw.varProbe("VarR", id, s, fn))
+		}
+		if rw.fieldProbes {
+			for _, sel := range rw.fieldReads(hdr, skip) {
+				out = append(out, rw.varProbe("VarR", sel, s, fn))
+				rw.stats["fieldr"]++
+			}
 		}
 		out = append(out, s)
 	}
